@@ -4,6 +4,7 @@ import (
 	"bytes"
 	"fmt"
 	"reflect"
+	"strings"
 	"testing"
 
 	"github.com/lightninglabs/lightning-node-connect/gbn"
@@ -342,6 +343,84 @@ func TestC19History(t *testing.T) {
 		rec.Case(true, fmt.Sprintf("%v", want), "serialisations_kept_across_later_ones")
 		if rec.WantSample() {
 			rec.Sample(map[string]any{"packets": want})
+		}
+	})
+	rec.Done()
+}
+
+// TestC19ReusedValue: "deserialises from its own serialisation to an equal
+// value" for a value with a past: ONE PacketData (fresh, or obtained from
+// Deserialize) is serialised, then some of its fields are assigned new values
+// in place (a flag flipped, a payload of the same or another length, the
+// sequence number), and it is serialised again, several times over. Whatever
+// a value remembers of its earlier encodings must not leak into the next one.
+func TestC19ReusedValue(t *testing.T) {
+	const unit = "TestC19ReusedValue"
+	rec := stats.New(t, "C19", unit)
+	if stats.ReplayMode() {
+		t.Skip()
+	}
+	rapid.Check(t, func(rt *rapid.T) {
+		p := &gbn.PacketData{Seq: rapid.Uint8().Draw(rt, "seq"), FinalChunk: rapid.Bool().Draw(rt, "fc"),
+			IsPing: rapid.Bool().Draw(rt, "ping"), Payload: rapid.SliceOfN(rapid.Byte(), 0, 40).Draw(rt, "payload")}
+		var hist []string
+		if rapid.Bool().Draw(rt, "from_wire") {
+			b, err := p.Serialize()
+			if err != nil {
+				rt.Fatalf("Serialize: %v", err)
+			}
+			m, err := gbn.Deserialize(b)
+			if err != nil {
+				rt.Fatalf("Deserialize: %v", err)
+			}
+			p = m.(*gbn.PacketData)
+			hist = append(hist, "value obtained from Deserialize")
+		}
+		steps := rapid.IntRange(2, 8).Draw(rt, "steps")
+		for i := 0; i < steps; i++ {
+			switch rapid.IntRange(0, 5).Draw(rt, "mutate") {
+			case 0:
+				p.FinalChunk = !p.FinalChunk
+				hist = append(hist, "FinalChunk flipped")
+			case 1:
+				p.IsPing = !p.IsPing
+				hist = append(hist, "IsPing flipped")
+			case 2:
+				// another payload of the same length
+				np := make([]byte, len(p.Payload))
+				for j := range np {
+					np[j] = rapid.Byte().Draw(rt, "b")
+				}
+				p.Payload = np
+				hist = append(hist, "payload replaced, same length")
+			case 3:
+				p.Payload = rapid.SliceOfN(rapid.Byte(), 0, 40).Draw(rt, "payload2")
+				hist = append(hist, "payload replaced")
+			case 4:
+				p.Seq = rapid.Uint8().Draw(rt, "seq2")
+				hist = append(hist, "Seq assigned")
+			default:
+				hist = append(hist, "unchanged")
+			}
+			want := normMsg(&gbn.PacketData{Seq: p.Seq, FinalChunk: p.FinalChunk, IsPing: p.IsPing, Payload: append([]byte(nil), p.Payload...)})
+			b, err := p.Serialize()
+			if err != nil {
+				rt.Fatalf("Serialize: %v", err)
+			}
+			d, err := gbn.Deserialize(b)
+			var got string
+			if err == nil {
+				got = normMsg(d)
+			}
+			if err != nil || got != want {
+				v := fmt.Sprintf("a PacketData value serialised for the %d. time (%s) holds %s but its serialisation decodes to %s (err %v)", i+1, strings.Join(hist, "; "), want, got, err)
+				rec.Pending(v, "reused", map[string]any{"history": hist, "want": want})
+				rt.Fatalf("%s", v)
+			}
+		}
+		rec.Case(true, fmt.Sprintf("%v|%d", hist, p.Seq), "value_reserialised_after_assignment")
+		if rec.WantSample() {
+			rec.Sample(map[string]any{"history": hist})
 		}
 	})
 	rec.Done()
